@@ -210,10 +210,12 @@ def runCmd (u : UTab) (cfg : Config) (now : Instant) (cmd : Cmd) (file : Bytes) 
     | _, .panic => .panic
     | _, .err => .fail
     | some date, .ok time =>
-      match date.plusDays (-1) with
+      -- the preceding day is only computed (and can only be unrepresentable) when no explicit
+      -- date or time is given (fix D20)
+      let auto := !a.date.isExplicit && a.time.isNone
+      match (if auto then date.plusDays (-1) else some date) with
       | none => .panic
       | some yesterday =>
-        let auto := !a.date.isExplicit && a.time.isNone
         (reconcileFile file
           (fun rs bos => firstCreator [reconcilerAtRecord date rs bos,
             if auto then reconcilerAtRecord yesterday rs bos else none])
